@@ -140,6 +140,17 @@ def brp_matrix(ctx, fails, mism):
                 want_abort = r is None or r == "" or comps(r) == ["/"] or any(comps(a)[:len(comps(r))] != comps(r) for a in args)
                 if aborted != want_abort:
                     fails.append(("brp-rule", "%s: %s but the documented rule says %s" % (label, "aborted" if aborted else "ran", "abort" if want_abort else "run"), label))
+                # the rule does not depend on how the work is then carried out: with workers, in check mode, verbosely
+                if want_abort and aborted:
+                    for extra in (["-j2"], ["--check"], ["-v", "-j1"], ["--check", "-j3"]):
+                        rc2, out2 = fh.run_cli(["--brp"] + extra + ["--handler", "gzip"] + args, epoch=samples.EPOCH, env_extra=env, cwd=R, timeout=60)
+                        after2 = fh.snapshot(t.root)
+                        n += 1
+                        if fh.parse_summary(out2) is not None or rc2 == 0 or fh.snap_equal(before, after2):
+                            fails.append(("brp-rule", "%s with %s: %s (exit %d) although the documented rule says abort, as the run without these options does; tree %s" % (
+                                label, " ".join(extra), "ran" if fh.parse_summary(out2) is not None else "aborted", rc2, "changed" if fh.snap_equal(before, after2) else "unchanged"), label + " " + " ".join(extra)))
+                            after = after2
+                            break
                 lines.append("B b%d_%d 1 %s %s" % (ri, ai, "-" if r is None else ("E" if r == "" else r.encode().hex()), " ".join(a.encode().hex() for a in args)))
                 reals.append(("b%d_%d" % (ri, ai), aborted, label))
                 # restore
@@ -289,7 +300,7 @@ def run(ctx):
         "rule": "trees with eligible files plus decoys (other/no extension, '.gz'/'.a' names, upper case, directories named like archives, temp-like names incl. a temp-named directory, "
                 "symlinks to files/directories inside and outside, dangling symlink, FIFOs and a socket with handled extensions, a hard link from outside, siblings of the arguments) x 5 argument "
                 "sets (directories, files, symlink/special-file arguments, duplicates) x {real, --check, -j3}; whole-tree snapshots incl. directory mtimes judged by the property; serial runs "
-                "replayed through the model walk in the implementation's visiting order; --brp x 11 RPM_BUILD_ROOT values x 10 argument sets under strace (abort before any open)",
+                "replayed through the model walk in the implementation's visiting order; --brp x 11 RPM_BUILD_ROOT values x 10 argument sets under strace (abort before any open), every aborting combination again with -j2 / --check / -v -j1 / --check -j3",
         "samples": samples_out, "correspondence_mismatches": len(mism), "oracle_failures": len(fails),
     })
     ctx.assumptions += ["walkdir's enumeration is taken from the implementation's own -v log (the model replays it)",
